@@ -62,6 +62,9 @@ func (a *RateLimitedAttester) innerVerifyRequest(tokenRequest RateLimitedTokenRe
 	}
 
 	scalarLen := (curve.Params().Params().BitSize + 7) / 8
+	if len(tokenRequest.Signature) != 2*scalarLen {
+		return fmt.Errorf("Request signature invalid")
+	}
 	r := new(big.Int).SetBytes(tokenRequest.Signature[:scalarLen])
 	s := new(big.Int).SetBytes(tokenRequest.Signature[scalarLen:])
 
